@@ -607,6 +607,11 @@ func c14alt(sc *sim.Scenario, env *sim.Env) *sim.Violation {
 				loadSimMem(second, sc)
 				SplitAlt(mc, second, sp&0xFFFFF0)
 				mem2 = second
+				// behind the split the first device holds something else: whatever is read there
+				// through the first device's closures (instead of the second's) is wrong
+				for a := sp & 0xFFFFF0; a < sp&0xFFFFF0+0x1000 && a <= 0xFFFFFF; a++ {
+					mem.Poke(a, mem.Peek(a)^0xFF)
+				}
 			}
 		}
 		mc.CPU.SetRegs(startRegs(sc))
